@@ -142,10 +142,12 @@ def run_plan_property(prop, tier, seed, checks, nontrivial, describe, known_filt
             p_e2e.pinpoint_refusal(R, ES, seed, prop)
         # fault-free runs of the compiled injectors (plain and under random provider latencies): order of provider entries,
         # returned value, termination, goroutines joined
-        if prop in ("C01", "C02", "C03") and not R.violations:
+        if prop in ("C01", "C02", "C03", "C05") and not R.violations:
             given = p_e2e.run_runtime(ES, tier, seed, fault_free_only=True)
-            nrun, _ = p_e2e.judge_runtime(R, ES, tier, seed, {prop}, given=given)
+            nrun, rstats = p_e2e.judge_runtime(R, ES, tier, seed, {prop}, given=given)
             R.coverage["fault_free_runs_of_compiled_injectors"] = nrun
+            if prop == "C05":
+                R.coverage["overlap_runs_all_input_free_async_providers_held_inside_together"] = (rstats or {}).get("overlap", 0)
             if prop == "C01" and given[0] is not None and not R.violations:
                 # the same fault-free runs under the race detector (the statement's last clause)
                 rc_r, out_r = ES["E"].build_runner(race=True)
